@@ -18,37 +18,37 @@ CHECKS = {
                 "(9 declaration kinds x 7 whitespace noises x 4 reference modes x module variants); the specification computes the names and import set that must come out. Each case "
                 "becomes a package of a real module, generated through gengo's pipeline by a scripted generator; GenFileTrace.tla judges what was read back from disk: parses, header names "
                 "the generator, package clause, names in order, same specs/tokens/comments as the rendered text, gofmt and gofumpt fixed points (formatters as logged oracles), import "
-                "block and go build. The reference text for 'altered only by formatting' is assembled by the harness from the script (never by gengo's writer); further dimensions added after seeded changes: a module inside a go.work workspace whose other module is generated first, declarations assembled from several Render calls, a comment go/printer needs two passes for, every judged generation rewriting a longer earlier file.",
+                "block and go build. The reference text for 'altered only by formatting' is assembled by the harness from the script (never by gengo's writer); further dimensions added after seeded changes: a module inside a go.work workspace whose other module is generated first, declarations assembled from several Render calls, a comment go/printer needs two passes for, every judged generation rewriting a longer earlier file. Also: any number of func init in one file.",
         "note": "The formatters and the compiler are oracles named by the statement itself and are not modelled; the spec supplies the input space and the abstract file. Bounded fragment sequences + random longer ones.",
         "technique": _TLC,
     },
     "C02": {
         "level": "fault_enumeration",
-        "text": "Pipeline.tla models Execute/pkgExecute with one action per critical section and a fault (generator error, unparseable rendering, process death) chosen lazily at every callback; TLC checks for all behaviours in bound that failure or death leaves gengo.sum and the culprit's previous file untouched (C02_* invariants, FineRefinesMacro). PipelineHist.tla then enumerates every single fault position x package x generator x run shape x pre-state x layout; each history runs on a real module (death = os.Exit inside the callback, fresh process per run) and PipelineTrace.tla judges outcome, error text, gengo.sum bytes, culprit file, sibling effects and the follow-up run. Unbounded part: specs/proofs/PipelineSumProof.tla (TLAPS, 206 obligations) proves over Pipeline.tla itself, for any packages / generators / runs, that gengo.sum changes only at the save step or between runs and is unchanged whenever a run is in progress, failed or died.",
+        "text": "Pipeline.tla models Execute/pkgExecute with one action per critical section and a fault (generator error, unparseable rendering, process death) chosen lazily at every callback; TLC checks for all behaviours in bound that failure or death leaves gengo.sum and the culprit's previous file untouched (C02_* invariants, FineRefinesMacro). PipelineHist.tla then enumerates every single fault position x package x generator x run shape x pre-state x layout; each history runs on a real module (death = os.Exit inside the callback, fresh process per run) and PipelineTrace.tla judges outcome, error text, gengo.sum bytes, culprit file, sibling effects and the follow-up run. Unbounded part: specs/proofs/PipelineSumProof.tla (TLAPS, 206 obligations) proves over Pipeline.tla itself, for any packages / generators / runs, that gengo.sum changes only at the save step or between runs and is unchanged whenever a run is in progress, failed or died. Faults are also placed in GenerateAliasType (an alias type in every package of the fixture).",
         "note": 'Fixture module with three packages in three layouts; bounds of Loop A per cfg (2-3 packages, 2 generators, 3-5 runs, 1-2 environment actions). Real map/sync.Map orders are sampled (fresh process per run), all orders only in the model. Crash points inside WriteToFile/Save not enumerated.',
         "technique": _TLC,
     },
     "C04": {
         "level": "model_checking",
-        "text": "Pipeline.tla models every order nondeterminism (write order of kept genfiles, stale-file removal order) and TLC checks C04_OutputIsFunctionOfInput for all of them; PipelineHist.tla enumerates repeated runs in fresh processes, all entrypoint permutations with/without All, on a plain fixture and one with shadowing local types / type parameters; PipelineTrace.tla's memo requires byte-identical outputs and the specified call order for identical package inputs and that a re-run changes nothing.",
+        "text": "Pipeline.tla models every order nondeterminism (write order of kept genfiles, stale-file removal order) and TLC checks C04_OutputIsFunctionOfInput for all of them; PipelineHist.tla enumerates repeated runs in fresh processes, all entrypoint permutations with/without All, on a plain fixture and one with shadowing local types / type parameters; PipelineTrace.tla's memo requires byte-identical outputs and the specified call order for identical package inputs and that a re-run changes nothing. The stateful generator renders one template whose two arguments refer to two packages with the same preferred import name; edits keep size and modification time and the process of the run first loads the module as it was before them.",
         "note": 'Fixture module with three packages in three layouts; bounds of Loop A per cfg (2-3 packages, 2 generators, 3-5 runs, 1-2 environment actions). Real map/sync.Map orders are sampled (fresh process per run), all orders only in the model. Crash points inside WriteToFile/Save not enumerated.',
         "technique": _TLC,
     },
     "C05": {
         "level": "model_checking",
-        "text": "ExpectedOut in Pipeline.tla mentions only the package's own behaviour and previous outputs (checked by TLC for every interleaving with other packages); PipelineHist.tla enumerates all pairs of runs over every ordered non-empty selection of packages x {All, non-All} with stateful recording generators (with and without New); PipelineTrace.tla requires each package's files to be identical in every run that regenerates it.",
+        "text": "ExpectedOut in Pipeline.tla mentions only the package's own behaviour and previous outputs (checked by TLC for every interleaving with other packages); PipelineHist.tla enumerates all pairs of runs over every ordered non-empty selection of packages x {All, non-All} with stateful recording generators (with and without New); PipelineTrace.tla requires each package's files to be identical in every run that regenerates it. The stateful generator renders one template whose two arguments refer to two packages with the same preferred import name.",
         "note": 'Fixture module with three packages in three layouts; bounds of Loop A per cfg (2-3 packages, 2 generators, 3-5 runs, 1-2 environment actions). Real map/sync.Map orders are sampled (fresh process per run), all orders only in the model. Crash points inside WriteToFile/Save not enumerated.',
         "technique": _TLC,
     },
     "C07": {
         "level": "model_checking",
-        "text": "Action properties of Pipeline.tla (inputs never change, only the current package's outputs change, gengo.sum only at the save step of an All run, non-selected packages untouched, file exists iff rendered / ErrIgnore keeps) checked by TLC; PipelineHist.tla enumerates planted file sets x behaviour configurations x run shapes x layouts; every file under the module root is digested before/after each run and PipelineTrace.tla checks the changed set and the existence predicate. Pipeline.tla's inputs-untouched and current-package-only properties are also proved by TLAPS for unbounded constants (PipelineSumProof.tla, thorough tier); a wrong-alternative configuration (file decided before the deferred callbacks ran) must yield a TLC counterexample.",
+        "text": "Action properties of Pipeline.tla (inputs never change, only the current package's outputs change, gengo.sum only at the save step of an All run, non-selected packages untouched, file exists iff rendered / ErrIgnore keeps) checked by TLC; PipelineHist.tla enumerates planted file sets x behaviour configurations x run shapes x layouts; every file under the module root is digested before/after each run and PipelineTrace.tla checks the changed set and the existence predicate. Pipeline.tla's inputs-untouched and current-package-only properties are also proved by TLAPS for unbounded constants (PipelineSumProof.tla, thorough tier); a wrong-alternative configuration (file decided before the deferred callbacks ran) must yield a TLC counterexample. Also: ErrIgnore signalled for an alias type (GenerateAliasType), a DIRECTORY named <base>.assets, an unhashable package generated alone from its own directory.",
         "note": 'Fixture module with three packages in three layouts; bounds of Loop A per cfg (2-3 packages, 2 generators, 3-5 runs, 1-2 environment actions). Real map/sync.Map orders are sampled (fresh process per run), all orders only in the model. Crash points inside WriteToFile/Save not enumerated.',
         "technique": _TLC,
     },
     "C08": {
         "level": "model_checking",
-        "text": 'Pipeline.tla gives directories structural hashes (covering nested package directories) and models load-time hashing, the cached-skip guard, save after success and environment edits; TLC checks skip-only-if-unchanged, sum-after-success and bounded convergence (2 + nesting depth quiet runs, then nothing happens) and reproduces non-convergence when the root hash covers gengo.sum. PipelineHist.tla enumerates histories over 17 steps (edits, user files, deleted outputs, deleted/corrupted gengo.sum, Force, failing and subset runs) from fresh and converged pre-states in three layouts; PipelineTrace.tla binds the logged dirhash values and judges every run. C08_SumAfterSuccess is also proved by TLAPS for unbounded constants (PipelineSumProof.tla, thorough tier); two wrong-alternative configurations (root hash covers gengo.sum; save only when the mapping changed) must yield TLC counterexamples.',
+        "text": 'Pipeline.tla gives directories structural hashes (covering nested package directories) and models load-time hashing, the cached-skip guard, save after success and environment edits; TLC checks skip-only-if-unchanged, sum-after-success and bounded convergence (2 + nesting depth quiet runs, then nothing happens) and reproduces non-convergence when the root hash covers gengo.sum. PipelineHist.tla enumerates histories over 17 steps (edits, user files, deleted outputs, deleted/corrupted gengo.sum, Force, failing and subset runs) from fresh and converged pre-states in three layouts; PipelineTrace.tla binds the logged dirhash values and judges every run. C08_SumAfterSuccess is also proved by TLAPS for unbounded constants (PipelineSumProof.tla, thorough tier); two wrong-alternative configurations (root hash covers gengo.sum; save only when the mapping changed) must yield TLC counterexamples. Also: a file named gengo.sum in a package that is not the module root; edits that keep size and modification time, with a preliminary load of the earlier content in the process of the run (process-wide caches).',
         "note": 'Fixture module with three packages in three layouts; bounds of Loop A per cfg (2-3 packages, 2 generators, 3-5 runs, 1-2 environment actions). Real map/sync.Map orders are sampled (fresh process per run), all orders only in the model. Crash points inside WriteToFile/Save not enumerated.',
         "technique": _TLC,
     },
@@ -57,7 +57,7 @@ CHECKS = {
         "text": "Dispatch.tla defines effective tags (declaration over package over global, per key), the enabling rule over segment-structured keys (decisive gengo:<name>, else any "
                 "gengo:<name>:<sub>) and the expected callback sequence; TLC checks precedence and no-prefix-confusion over the whole lattice; every (global, package) placement x generator "
                 "list is materialised with all 24 declaration-level placement x kind combinations plus local types, type parameters and a tagged foreign package, run in fresh processes, and "
-                "DispatchTrace.tla compares the callback log (kind, generator, type, go/types object kind) and the deferred-callback discipline (once each, after the last call, before the write). A second package without package tags is generated after the first in the same Execute (nothing may leak), one generator renders only from deferred callbacks, one callback registers two follow-ups, and multi-line declarations carry trailing tag comments that must not reach the next type.",
+                "DispatchTrace.tla compares the callback log (kind, generator, type, go/types object kind) and the deferred-callback discipline (once each, after the last call, before the write). A second package without package tags is generated after the first in the same Execute (nothing may leak), one generator renders only from deferred callbacks, one callback registers two follow-ups, and multi-line declarations carry trailing tag comments that must not reach the next type. Half of the declarations lie below a //line directive.",
         "note": "Exhaustive over the 6x6x6 placement lattice for one tag family and 4 generator lists; one value per key per level; tags in one package comment only.",
         "technique": _TLC,
     },
@@ -66,7 +66,7 @@ CHECKS = {
         "text": "ImportTracker.tla states the permissive contract of the import table (exactly the referenced foreign packages; valid non-keyword identifiers; injective; "
                 "stable; ask-twice; printed qualifier = bound name; own package unqualified) and a code-shaped candidate search that TLC proves total for every addition "
                 "order (and shows partial without the fall-back). TLC enumerates every reference history over a collision-prone 14-path universe closed by each reference "
-                "kind; each is rendered through a real raw namer + tracker with the whole table logged after every step and ImportTrackerTrace.tla judges every step.",
+                "kind; each is rendered through a real raw namer + tracker with the whole table logged after every step and ImportTrackerTrace.tla judges every step. Also: a natural name that equals a numbered fall-back name; type arguments spelled with letters outside ASCII.",
         "note": "Chosen names are bound from the log, not prescribed. The written-file side (import block of real generated files = referenced packages, distinct valid bound names, go build) is judged by the genfile family shared with C01.",
         "technique": _TLC,
     },
@@ -93,7 +93,7 @@ CHECKS = {
         "text": "TypeLit.tla enumerates every well-formed closed type expression up to the tier depth (12 leaves incl. error, any, named types of three packages - one same-named clash - "
                 "and generic instantiations; 8 constructors incl. tagged and embedded struct fields) x 3 rendering scenarios x {go/types, reflect} views and states the law (rendered text "
                 "type-checks in the target package with exactly the registered imports to an identical type; local unqualified; imports = mentioned foreign packages). Each case is rendered "
-                "with snippet.ID, type-checked by go/types inside the real target package and judged by TypeLitTrace.tla.",
+                "with snippet.ID, type-checked by go/types inside the real target package and judged by TypeLitTrace.tla. A fourth rendering scenario writes into the package whose directory is dotted.v3; the tag of the tagged field contains percent signs.",
         "note": "go/types decides denotation (logged); the specification supplies domain and law. Exhaustive to the depth bound.",
         "technique": _TLC,
     },
@@ -102,7 +102,7 @@ CHECKS = {
         "text": "Comments.tla defines tag classification (trim, marker, key/value split, ordered multimap) and the geometric attribution of doc and trailing "
                 "comments over layouts of line kinds in five declaration contexts; TLC proves that a two-index scheme (leading groups by end line, trailing groups "
                 "apart) equals the geometric definition for all layouts in bound and shows the counterexample when trailing groups leak into the leading index; every "
-                "line / line list / layout in bound is replayed (real Go source loaded by types.Load) and CommentsTrace.tla judges tags, other lines, Doc, Comment per declaration. Layouts include declarations spanning several lines and embedded fields with trailing comments; every Doc/Comment is asked again after the caller overwrote what the first call returned; two thirds of the layouts lie below a //line directive.",
+                "line / line list / layout in bound is replayed (real Go source loaded by types.Load) and CommentsTrace.tla judges tags, other lines, Doc, Comment per declaration. Layouts include declarations spanning several lines and embedded fields with trailing comments; every Doc/Comment is asked again after the caller overwrote what the first call returned; two thirds of the layouts lie below a //line directive. Every third // line reads go: ... or host:port ... (text shaped like a directive); tag lines include words whose first character ends in the byte of a marker.",
         "note": "Canonical comment texts; comments trailing '(' or '{' lines and tab-indented tag lines are not generated (statement silent). Exhaustive up to the line-count / length bound.",
         "technique": _TLC,
     },
@@ -112,7 +112,7 @@ CHECKS = {
                 "with the scope filter and exhibits the order-dependent counterexample without - and (2) DFS registration over an import DAG for every visiting order and root set "
                 "(imports resolve iff the package object is created after its imports). Every selection of up to 3-4 of 22 source features is a synthetic package, the dependency "
                 "closure of gengo's own module (std included) is the real corpus; UniverseTrace.tla compares table key sets, identity, MethodsOf, Imports, LocateInPackage, SourceDir "
-                "with go/types scopes and file positions logged by the harness. UniverseTablesProof.tla (TLAPS, 54 obligations, over Universe.tla itself) proves the table machine correct for any object set and visiting order; the configuration without the scope filter must yield a TLC counterexample.",
+                "with go/types scopes and file positions logged by the harness. UniverseTablesProof.tla (TLAPS, 54 obligations, over Universe.tla itself) proves the table machine correct for any object set and visiting order; the configuration without the scope filter must yield a TLC counterexample. Methods declared through an alias of the receiver type; LocateInPackage is asked for the first byte, every comment and the last byte of each file.",
         "note": "go/types and go/packages are the oracle. Interface types are excluded from the MethodsOf comparison; init/blank functions set aside.",
         "technique": _TLC,
     },
@@ -122,7 +122,7 @@ CHECKS = {
                 "model (self / mutual recursion, cross-index forwarding) and shows the unbounded descent when only the first index gets its mark. Every assignment of 13 source shapes to "
                 "three functions is a generated package (2197), and every function and method of the dependency closure of gengo's own module (about 11,000 units) is the real corpus; "
                 "ResultsOf runs in a supervised child (stack cap, time budget, restart behind a killing unit) and FuncResultsTrace.tla judges termination, declared n, one non-empty list per "
-                "result, assignability (go/types), repeatability and - for literal-only shapes - the exact alternatives in source order. Every unit is asked once more after all others (the answer may not depend on what was asked in between); shapes include a call chain over two package boundaries, closures with fewer results than the enclosing function, spread variadic calls, function-local constants and legacy octal literals; constants are checked for a kind the result type can hold.",
+                "result, assignability (go/types), repeatability and - for literal-only shapes - the exact alternatives in source order. Every unit is asked once more after all others (the answer may not depend on what was asked in between); shapes include a call chain over two package boundaries, closures with fewer results than the enclosing function, spread variadic calls, function-local constants and legacy octal literals; constants are checked for a kind the result type can hold. A third pass asks a FRESH universe of the same module in the opposite order; literal-only shapes include inexact integer division.",
         "note": "types.AssignableTo is the oracle for 'possible result'; ResultsOf is called on the declaring package; exact alternatives only for the literal-only shapes.",
         "technique": _TLC,
     },
@@ -131,7 +131,7 @@ CHECKS = {
         "text": "TypeRef.tla defines reference trees, their printer, a character-level parser with a bracket depth counter, the path/name split point and the "
                 "import-name rewrite; TLC checks Parse(Print(t)) = t, Print(Parse(s)) = s and the split point for every tree within bounds (Loop A), every tree is "
                 "replayed into ParseTypeRef/String, ParseRef/Ref, PkgImportPathAndExpose and snippet.ID through a raw namer (Loop B) and TypeRefTrace.tla "
-                "judges parse result, printed string, split agreement, rewritten text and registered import set (Loop C).",
+                "judges parse result, printed string, split agreement, rewritten text and registered import set (Loop C). Every second reference is rendered into a file that has already named the generic declaration (a go/types object) of the same path and name.",
         "note": "Exhaustive for all trees within (depth,width,leaf set) bounds incl. depth 4-5 over one leaf; random trees beyond. Which import name is chosen is bound from the log, not prescribed.",
         "technique": _TLC,
     },
@@ -139,7 +139,7 @@ CHECKS = {
         "level": "exploration",
         "text": "RuntimeDoc.tla enumerates type cases (8 kinds x doc comments over 11 line classes x 9 field patterns x 7 field doc patterns) and defines coverage, listed fields and the "
                 "answers RuntimeDoc must give, computed from the recorded source lines; each case is real Go source, the real runtimedoc generator runs through gengo, the module is compiled "
-                "with a probe program and RuntimeDocTrace.tla compares every recorded answer (type doc, every field, embedded delegation, unknown and unlisted names) with the specification's.",
+                "with a probe program and RuntimeDocTrace.tla compares every recorded answer (type doc, every field, embedded delegation, unknown and unlisted names) with the specification's. Also: line classes that look like directives (host:port, go: ...), types below a //line directive, structs embedding a named scalar in packages where no struct embeds a struct.",
         "note": "Compiler + compiled probe are the oracle for 'compiles' and 'returns'; canonical comment text; embed references, docs starting with a field's own name and documented embedded fields are not generated.",
         "technique": "TLA+-enumerated domain with a model-computed oracle, TLC trace judge over the compiled program's answers",
     },
@@ -148,7 +148,7 @@ CHECKS = {
         "text": "DeepCopy.tla holds a heap model (struct trees with container identities) in which TLC checks that a copy allocating fresh containers at every by-value nesting depth makes "
                 "every mutation of the copy invisible to the original (and exhibits the sharing otherwise), and enumerates selections of 15 field kinds x 4 variants as generated struct types. "
                 "The real deepcopy generator runs through gengo twice per package; the module is compiled and a reflective probe reports nil->nil, DeepEqual, the alias relation of every "
-                "container path and the effect of mutating every container of the copy; DeepCopyTrace.tla judges the logged facts.",
+                "container path and the effect of mutating every container of the copy; DeepCopyTrace.tla judges the logged facts. Also: two fields of one container-holding struct type, package-level identifiers named slices / maps, enabled types whose names differ in case only.",
         "note": "Compiler and compiled probe are the oracle; the model supplies domain, alias law and the design-level proof. Containers are followed through by-value struct nesting only.",
         "technique": "TLA+ heap model checked by TLC + TLA+-enumerated type graphs, TLC trace judge over compiler / probe verdicts",
     },
@@ -157,7 +157,7 @@ CHECKS = {
         "text": "PartialStruct.tla enumerates origin structs (ordered selections of 9 field kinds x tag-class rotations x omit sets x replace modes + three error shapes) and defines "
                 "Retained(origin, omit, replace); the real partialstruct generator runs through gengo, the module is compiled, and a reflective probe reports field order, reflect.Type and tag "
                 "identity with the origin or the replacement, DeepCopyAs on nil, equality of retained and zero-ness of omitted fields; PartialStructTrace.tla judges them against Retained and "
-                "requires an error (and no file) for the error shapes.",
+                "requires an error (and no file) for the error shapes. Also: partial declarations below a //line directive, origins reached through an alias that re-exports the struct of an internal package.",
         "note": "Compiler and compiled probe are the oracle; replacement types are generated partial structs.",
         "technique": "TLA+-enumerated domain with a model-computed oracle, TLC trace judge over compiler / probe verdicts",
     },
@@ -166,7 +166,7 @@ CHECKS = {
         "text": "CamelCase.tla models Split as a rune-class scanner with an explicit PANIC outcome; TLC proves it total, lossless and free of empty "
                 "words for every class string up to the bound (Loop A), every reachable state is replayed three times (1/2/3-4 byte runes) "
                 "into camelcase.Split and the six converters, and CamelCaseTrace.tla judges every recorded result against the property "
-                "(no panic, non-empty words, concatenation = input, single word for invalid UTF-8, purity). Small-scope exhaustive + random beyond.",
+                "(no panic, non-empty words, concatenation = input, single word for invalid UTF-8, purity). Small-scope exhaustive + random beyond. Every input is converted once more in a fresh process that meets the inputs in the opposite order (history-dependent answers).",
         "note": "Trusts package unicode for rune classes, TLC, and the Go harness's recording. Exhaustive only up to the stated class-string length.",
         "technique": _TLC,
     },
